@@ -35,6 +35,28 @@ FasBinOf(v, h, k) == LET N == NextPow2(Len(v)) IN FasBin(v, h, N, Twiddles(N), k
 FasFreqOf(v, h, k) == Freq(k, NextPow2(Len(v)), h)
 FasBins(v) == Bins(NextPow2(Len(v)))
 
+\* ---- a logged read e = [what, k, val] of an object holding record v with time step h ----------
+\* (val = <<re, im>> for "fas", else <<x, 0>>); shared by Trace_SignalObj and Trace_ClusterObj
+ReadValueOK(v, h, e) ==
+  LET x == e.val[1]  w == e.what
+      S == FAdd(FMaxAbs(v), FStr("1e-300"))
+      T == FMul(FInt(Len(v)), h)
+      Rel == FStr("1e-9")
+  IN CASE w = "npts" -> FEq(x, FInt(Npts(v)))
+       [] w = "time_last" -> Close(x, TimeLast(v, h), FMul(FStr("1e-12"), FAdd(T, FStr("1e-300"))))
+       [] w = "values_k" -> e.k < Len(v) /\ FEq(x, v[e.k + 1])
+       [] w = "pga" -> FEq(x, Pga(v))
+       [] w = "pgv" -> Close(x, Motion(v, h).pv, FMul(Rel, FMul(S, T)))
+       [] w = "pgd" -> Close(x, Motion(v, h).pd, FMul(Rel, FMul(S, FSq(T))))
+       [] w = "velocity_last" -> Close(x, Motion(v, h).v, FMul(Rel, FMul(S, T)))
+       [] w = "displacement_last" -> Close(x, Motion(v, h).d, FMul(Rel, FMul(S, FSq(T))))
+       [] w = "arias_last" -> Close(x, AriasFinal(v, h), FMul(Rel, FMul(FSq(S), T)))
+       [] w = "cav_last" -> Close(x, CavFinal(v, h), FMul(Rel, FMul(S, T)))
+       [] w = "fas_bins" -> FEq(x, FInt(FasBins(v)))
+       [] w = "fas" -> e.k < FasBins(v) /\ CClose(e.val, FasBinOf(v, h, e.k), FMul(FMul(Rel, h), FAdd(FSumAbs(v), FStr("1e-300"))))
+       [] w = "fas_freq" -> e.k < FasBins(v) /\ CloseRel(x, FasFreqOf(v, h, e.k), FStr("1e-12"), FAbs(x), Zero)
+       [] OTHER -> FALSE
+
 \* ---- the operations -----------------------------------------------------------------
 AddConst(v, c) == [j \in 1..Len(v) |-> FAdd(v[j], c)]
 AddSeq(v, s) == [j \in 1..Len(v) |-> FAdd(v[j], s[j])]
